@@ -35,7 +35,7 @@ LEVEL_TEXT = ("All 96 public callables found by introspection are called through
 LEVEL_NOTE = "Trusted: NumPy's read-only flag and blake2b digests. Results that alias an argument (angularSpectrum with z = 0 returns its input) are recorded, not judged."
 RULE = "case = (callable, recipe variant, layout, dtype, pass) or one program; non-trivial when the call has at least one array argument; distinct by those"
 ASSUMPTIONS = ["recipes use valid, small inputs; an exception in a dtype/layout *variant* that the plain call does not raise is recorded, not judged"]
-REQUIRED_COUNTERS = ["fresh_process_orders", "callables_with_recipe", "shadow_checks", "trap_calls", "determinism_checks", "global_state_checks", "programs"]
+REQUIRED_COUNTERS = ["returned_array_stability_checks", "batch_items_compared", "fresh_process_orders", "callables_with_recipe", "shadow_checks", "trap_calls", "determinism_checks", "global_state_checks", "programs"]
 TIMEOUT = {"quick": 1200, "thorough": 7200}
 
 
@@ -403,6 +403,71 @@ def fresh_process_orders(ctx, aotools, rng, ops):
                      {"operation": ops[k][0], "order_A": [ops[i][0] for i in order][:12]})
 
 
+def returned_arrays_stay_put(ctx, aotools, rng):
+    """An array the library has handed out must not change when the library is called again (no buffer is shared with
+    later results): digests of returned arrays, kept WITHOUT copying, are re-taken after further calls."""
+    for cls, kw in ((aotools.PhaseScreenVonKarman, {"n_columns": 2}), (aotools.PhaseScreenKolmogorov, {"stencil_length_factor": 2})):
+        scr = cls(int(rng.integers(6, 14)), 0.1, 0.2, 20.0, random_seed=int(rng.integers(0, 1000)), **kw)
+        held = []
+        for step in range(int(rng.integers(4, 12))):
+            v = scr.scrn                     # a read ...
+            held.append(("scrn read before step %d" % step, v, digest(np.asarray(v))))
+            r = scr.add_row()                # ... and the value add_row returns
+            held.append(("add_row() result of step %d" % step, r, digest(np.asarray(r))))
+        ctx.case("returned_arrays:" + cls.__name__, key=(cls.__name__, len(held), float(np.asarray(held[0][1]).flat[0])), nontrivial=True)
+        for what, arr, d in held:
+            ctx.count("returned_array_stability_checks")
+            ctx.count("oracle_evals")
+            if digest(np.asarray(arr)) != d:
+                ctx.fail("returned_array_changes_later:%s" % cls.__name__, "%s of %s was rewritten by a later call" % (what, cls.__name__), {"class": cls.__name__})
+                break
+    # plain functions: results of earlier calls are untouched by later calls on other data
+    imgs = [np.random.default_rng(k).random((10, 10)) + 0.1 for k in range(3)]
+    outs = []
+    for im in imgs:
+        for fn in (lambda a: aotools.ft2(a, 0.1), lambda a: aotools.binImgs(a, 2), lambda a: aotools.zoom(a, 15), lambda a: aotools.azimuthal_average(a),
+                   lambda a: aotools.centre_of_gravity(a, 0.1), lambda a: aotools.phase_covariance(a, 0.2, 25.0), lambda a: aotools.circle(3, 10) * a):
+            o = fn(im)
+            outs.append((o, digest(np.asarray(o))))
+    for o, d in outs:
+        ctx.count("returned_array_stability_checks")
+        ctx.check(digest(np.asarray(o)) == d, "returned_array_changes_later:function_result", "a function result changed after later calls", None)
+
+
+def batch_item_consistency(ctx, aotools, rng):
+    """Functions that accept stacks / leading batch axes return, per item, what the single-item call returns."""
+    from aotools import fouriertransform as F
+    from aotools.image_processing import centroiders as C
+    from aotools.turbulence import temporal_ps, atmos_conversions as ac
+    k = int(rng.integers(2, 6))
+    n = int(rng.choice([6, 7, 8, 12]))
+    c0, c1 = np.arange(n)[:, None], np.arange(n)[None, :]
+    frames = np.stack([np.exp(-((c0 - n / 2.3 - 0.2 * i) ** 2 + (c1 - n / 1.8) ** 2) / 5.0) * (i + 1) + 0.02 * rng.random((n, n)) + 0.01 for i in range(k)])
+    cplx = frames + 1j * rng.standard_normal(frames.shape)
+    reg = [
+        ("ft", lambda s: F.ft(s, 0.3), lambda x: F.ft(x, 0.3), cplx, 0), ("ift", lambda s: F.ift(s, 0.3), lambda x: F.ift(x, 0.3), cplx, 0),
+        ("ft2", lambda s: F.ft2(s, 0.3), lambda x: F.ft2(x, 0.3), cplx, 0), ("ift2", lambda s: F.ift2(s, 0.3), lambda x: F.ift2(x, 0.3), cplx, 0),
+        ("ft2_top_level", lambda s: aotools.ft2(s, 0.3), lambda x: aotools.ft2(x, 0.3), cplx, 0), ("ift2_top_level", lambda s: aotools.ift2(s, 0.3), lambda x: aotools.ift2(x, 0.3), cplx, 0),
+        ("rft", lambda s: F.rft(s, 0.3), lambda x: F.rft(x, 0.3), frames, 0), ("rft2", lambda s: F.rft2(s, 0.3), lambda x: F.rft2(x, 0.3), frames, 0),
+        ("binImgs", lambda s: aotools.binImgs(s[:, : n - n % 2, : n - n % 2], 2), lambda x: aotools.binImgs(x[: n - n % 2, : n - n % 2], 2), frames, 0),
+        ("centre_of_gravity", lambda s: C.centre_of_gravity(s), lambda x: C.centre_of_gravity(x), frames, -1),
+        ("brightest_pixel", lambda s: C.brightest_pixel(s, 0.3), lambda x: C.brightest_pixel(x, 0.3), frames, -1),
+        ("quadCell", lambda s: C.quadCell(s[:, :2, :2]), lambda x: C.quadCell(x[:2, :2]), frames, -1),
+        ("correlation_centroid", lambda s: C.correlation_centroid(s, frames[0].copy(), 0.1, 2), lambda x: C.correlation_centroid(x[None], frames[0].copy(), 0.1, 2)[:, 0], frames, -1),
+        ("calc_slope_temporalps", lambda s: temporal_ps.calc_slope_temporalps(s)[0], lambda x: temporal_ps.calc_slope_temporalps(x)[0], frames, 0),
+        ("isoplanaticAngle", lambda s: ac.isoplanaticAngle(s[:, 0, :] * 1e-14, s[:, 1, :] * 1e4 + 10), lambda x: ac.isoplanaticAngle(x[0, :] * 1e-14, x[1, :] * 1e4 + 10), frames, 0),
+    ]
+    for name, on_stack, on_item, data, axis in reg:
+        st = on_stack(data.copy())
+        ctx.case("batch:" + name, key=(name, k, n, float(np.abs(data).sum())), nontrivial=True, sample={"function": name, "stack_depth": k, "frame": n} if name == "ft2" else None)
+        for i in range(k):
+            it = np.asarray(on_item(data[i].copy()))
+            got = np.take(np.asarray(st), i, axis=axis) if np.asarray(st).ndim > it.ndim else np.asarray(st)
+            sc = float(np.abs(it).max()) + 1e-300
+            ctx.count("batch_items_compared")
+            ctx.close("batch_item:" + name, got, it.astype(got.dtype) if got.shape == it.shape else it, 1e-11 * sc, "batch_item_differs:" + name, {"function": name, "item": i, "stack_depth": k}, scale=sc)
+
+
 def run(ctx, spec):
     import aotools
     rng = ctx.rng
@@ -428,6 +493,9 @@ def run(ctx, spec):
             ctx.count("callables_with_recipe", 1 if rep == 0 else 0)
             calls = R[n](rng)
             check_callable(ctx, aotools, n, public[n], calls, rng, others)
+    for rep in range(spec["reps"]):
+        returned_arrays_stay_put(ctx, aotools, rng)
+        batch_item_consistency(ctx, aotools, rng)
     ops = program_ops(aotools)
     for p in range(spec["programs"]):
         run_program(ctx, aotools, rng, p, ops)
